@@ -147,7 +147,7 @@ def site_program(rng):
 
 
 def run(ctx):
-    proved = ctx.prove("LaytheVerif.Props.C13")
+    proved = ctx.prove("LaytheVerif.Props.C13Heap")
     ok_c, out_c = common.cargo_build()
     if not ok_c:
         ctx.violation("harness_build", {"kind": "harness-build-failed", "broken": "cargo build of /verif/harness against /repo",
